@@ -76,7 +76,26 @@ type specWatchReq struct {
 	Prefix int   `json:"prefix"`
 }
 
+type specKv struct {
+	K   int    `json:"k"`
+	Rev uint64 `json:"rev"`
+	Val string `json:"val"`
+}
+
+type specRead struct {
+	P       string   `json:"p"`
+	N       int      `json:"n"`
+	Kind    string   `json:"kind"`
+	Key     int      `json:"key"`
+	Req     uint64   `json:"req"`
+	Rev     uint64   `json:"rev"`
+	Hdr     uint64   `json:"hdr"`
+	Refused bool     `json:"refused"`
+	Res     []specKv `json:"res"`
+}
+
 type specFinal struct {
+	Reads     []specRead             `json:"reads"`
 	Idx       []specIdx              `json:"idx"`
 	Ver       [][]specVer            `json:"ver"`
 	Committed uint64                 `json:"committed"`
@@ -120,6 +139,16 @@ var writerStops = map[string]bool{"deal": true, "kv.commit": true, "kv.get": tru
 // every engine deletion
 var compactStops = map[string]bool{"kv.iter": true, "kv.del": true, "kv.delcur": true}
 var compactActions = map[string]bool{"CStart": true, "CIter": true, "CDel": true}
+
+// reader processes (RInvoke / RCheck / RIter) stop at the compaction-record check and where the iterator is opened
+var readStops = map[string]bool{"kv.get": true, "kv.iter": true}
+var readActions = map[string]bool{"RInvoke": true, "RCheck": true, "RIter": true}
+
+type rdOutcome struct {
+	err string
+	hdr uint64
+	kvs []interface{}
+}
 
 func parkLabels(seqDetail, watchers bool) func(string, string, uint64, uint64) bool {
 	m := map[string]bool{
@@ -264,6 +293,9 @@ type runState struct {
 	watch      map[string]*watchState
 	maxRev     uint64
 	compactors map[string]bool
+	readers    map[string]bool
+	readN      map[string]int
+	readRes    map[string]rdOutcome
 }
 
 func (rs *runState) note(f string, a ...interface{}) {
@@ -305,6 +337,9 @@ func (rs *runState) stopsFor(s specStep) map[string]bool {
 	if compactActions[s.A] {
 		return compactStops
 	}
+	if readActions[s.A] {
+		return readStops
+	}
 	switch s.P {
 	case "seq":
 		if rs.cfg.SeqDetail {
@@ -342,6 +377,9 @@ func (rs *runState) execStep(s specStep) error {
 	}
 	if s.A == "CStart" {
 		return rs.startCompact(s)
+	}
+	if s.A == "RInvoke" {
+		return rs.startRead(s)
 	}
 	if s.A == "CDel" && s.F != "" && s.F != "ok" {
 		proc := s.P
@@ -399,6 +437,46 @@ func (rs *runState) execStep(s specStep) error {
 	}
 	_, err = env.Sched.Step(s.P, rs.stopsFor(s), to)
 	return err
+}
+
+// startRead issues one read request (specification: RInvoke; f = kind, x = revision * 16 + key) and lets it
+// run to its first stop.
+func (rs *runState) startRead(s specStep) error {
+	env := rs.env
+	rev, key := s.X/16, int(s.X%16)
+	rs.readers[s.P] = true
+	rs.readN[s.P]++
+	n := rs.readN[s.P]
+	nkeys := len(rs.b.KInit)
+	started := make(chan struct{})
+	go func() {
+		env.Sched.Register(s.P)
+		close(started)
+		rd := &reader{env: env, pname: s.P}
+		if s.F == "list" {
+			bs := boundsFor(env, nkeys)
+			rd.list(bs[0], bs[len(bs)-1], rev, 0, -1)
+		} else {
+			rd.get(key, rev)
+		}
+		rs.resMu.Lock()
+		rs.readRes[fmt.Sprintf("%s/%d", s.P, n)] = rdOutcome{err: rd.lastErr, hdr: rd.lastHdr, kvs: rd.lastKvs}
+		rs.resMu.Unlock()
+		env.Sched.Finish(s.P)
+	}()
+	<-started
+	st, err := env.Sched.RunToStop(s.P, readStops, rs.cfg.Timeout)
+	if err != nil {
+		return err
+	}
+	want := "kv.iter"
+	if s.F == "list" {
+		want = "kv.get"
+	}
+	if st.Finished || st.Label != want {
+		return fmt.Errorf("RInvoke: %s is at gate %q (finished=%v), specification expects %s", s.P, st.Label, st.Finished, want)
+	}
+	return nil
 }
 
 // startCompact issues one compaction request and lets it run until its worker is about to open
@@ -473,6 +551,13 @@ func (rs *runState) finishAll() {
 			} else if (!st.Exists || st.Finished) && rs.opIdx[p] < len(rs.b.WOps[p]) && rs.diverged {
 				if err := rs.launchWriter(p); err == nil {
 					env.Sched.RunToStop(p, writerStops, to)
+					progressed = true
+				}
+			}
+		}
+		for p := range rs.readers {
+			if st := env.Sched.Peek(p); st.Exists && st.Parked {
+				if _, err := env.Sched.Step(p, noStops, to); err == nil {
 					progressed = true
 				}
 			}
@@ -620,6 +705,33 @@ func (rs *runState) compareFinal() []string {
 		}
 	}
 	diffs = append(diffs, rs.compareWatch()...)
+	rs.resMu.Lock()
+	for _, x := range f.Reads {
+		r, ok := rs.readRes[fmt.Sprintf("%s/%d", x.P, x.N)]
+		if !ok {
+			diffs = append(diffs, fmt.Sprintf("read %s/%d did not return", x.P, x.N))
+			continue
+		}
+		if x.Refused != (r.err != "") {
+			diffs = append(diffs, fmt.Sprintf("read %s/%d refused: real %q spec %v", x.P, x.N, r.err, x.Refused))
+			continue
+		}
+		if x.Refused {
+			continue
+		}
+		want := []string{}
+		for _, kv := range x.Res {
+			want = append(want, fmt.Sprintf("[%d %d %s]", kv.K, kv.Rev, kv.Val))
+		}
+		got := []string{}
+		for _, kv := range r.kvs {
+			got = append(got, fmt.Sprint(kv))
+		}
+		if strings.Join(got, " ") != strings.Join(want, " ") || r.hdr != x.Hdr && x.Kind == "list" {
+			diffs = append(diffs, fmt.Sprintf("read %s/%d (%s rev %d): real hdr %d %v spec hdr %d %v", x.P, x.N, x.Kind, x.Req, r.hdr, got, x.Hdr, want))
+		}
+	}
+	rs.resMu.Unlock()
 	return diffs
 }
 
@@ -630,7 +742,7 @@ func replayOne(cfg replayCfg, eng *kb.Engine, b *behaviour, rep *replayReport) [
 	env := kb.NewEnv(kb.Options{Engine: eng, KeyNames: keyNames, Gated: true, Park: parkLabels(cfg.SeqDetail, hasWatchers),
 		Base: cfg.Base, CacheSize: cfg.CacheSize, Record: true})
 	defer env.Retire()
-	rs := &runState{cfg: cfg, env: env, b: b, opIdx: map[string]int{}, results: map[string][]opResult{}, watch: map[string]*watchState{}, compactors: map[string]bool{}}
+	rs := &runState{cfg: cfg, env: env, b: b, opIdx: map[string]int{}, results: map[string][]opResult{}, watch: map[string]*watchState{}, compactors: map[string]bool{}, readers: map[string]bool{}, readN: map[string]int{}, readRes: map[string]rdOutcome{}}
 	for k, st := range b.KInit {
 		if err := seedKey(env, k+1, st); err != nil {
 			rep.Errors++
